@@ -804,6 +804,11 @@ func (b *Builder) planReplace() stepPlan {
 	// add voter + remove voter OR add learner + remove learner.
 	for _, i := range b.toAdd.IDs() {
 		add := b.toAdd[i]
+		if b.currentPeers[i] != nil {
+			// The store still holds the peer this one replaces (a voter turned into a learner
+			// without joint consensus): it must be removed before the new peer can be added.
+			continue
+		}
 		for _, j := range b.toRemove.IDs() {
 			remove := b.toRemove[j]
 			if core.IsLearner(remove) == core.IsLearner(add) {
@@ -815,7 +820,7 @@ func (b *Builder) planReplace() stepPlan {
 	for _, i := range b.toPromote.IDs() {
 		promote := b.toPromote[i]
 		for _, j := range b.toAdd.IDs() {
-			if add := b.toAdd[j]; core.IsLearner(add) {
+			if add := b.toAdd[j]; core.IsLearner(add) && b.currentPeers[j] == nil {
 				for _, k := range b.toRemove.IDs() {
 					if remove := b.toRemove[k]; !core.IsLearner(remove) && j != k {
 						best = b.planReplaceLeaders(best, stepPlan{promote: promote, add: add, remove: remove})
@@ -830,7 +835,7 @@ func (b *Builder) planReplace() stepPlan {
 		for _, j := range b.toRemove.IDs() {
 			if remove := b.toRemove[j]; core.IsLearner(remove) {
 				for _, k := range b.toAdd.IDs() {
-					if add := b.toAdd[k]; !core.IsLearner(add) && j != k {
+					if add := b.toAdd[k]; !core.IsLearner(add) && j != k && b.currentPeers[k] == nil {
 						best = b.planReplaceLeaders(best, stepPlan{demote: demote, add: add, remove: remove})
 					}
 				}
@@ -914,6 +919,10 @@ func (b *Builder) planAddPeer() stepPlan {
 	var best stepPlan
 	for _, i := range b.toAdd.IDs() {
 		a := b.toAdd[i]
+		if b.currentPeers[i] != nil {
+			// wait until the peer it replaces has been removed from the store
+			continue
+		}
 		for _, leader := range b.currentPeers.IDs() {
 			if b.allowLeader(b.currentPeers[leader], false) {
 				best = b.comparePlan(best, stepPlan{add: a, leaderBeforeAdd: leader})
